@@ -29,3 +29,5 @@ def run(check: Check, repo: Repo, tier: str) -> None:
     X.cleanup_gather(check, repo, mods)
     X.abort_result_used(check, repo, mods)
     X.twin_handlers(check, repo, repo.package_modules('execution'))
+    X.cancel_aborts(check, repo)
+    X.prime_tracked(check, repo, repo.package_modules("execution"))
